@@ -5,26 +5,30 @@ From AG Require Import Str Ops Filter Str_proofs.
 Import ListNotations.
 Open Scope N_scope.
 
-(** [m] is an instance of the literal segment [p]: same length, characters equal up to
-    ASCII case, a pattern space standing for any whitespace character *)
-Fixpoint seg_eq (p m : str) : bool :=
+(** [m] is an instance of the literal segment [p] under the character test [pm]: same length,
+    every character of [m] accepted by the character of [p] at the same place.
+    With [pchar_match] (bare keywords, parse patterns): equal up to ASCII case, a pattern space
+    standing for any whitespace character.  With [pchar_exact] (quoted keywords): equal
+    case-sensitively, a pattern space standing for any whitespace character. *)
+Fixpoint seg_eq (pm : N -> N -> bool) (p m : str) : bool :=
   match p, m with
   | [], [] => true
-  | pc :: p', c :: m' => pchar_match pc c && seg_eq p' m'
+  | pc :: p', c :: m' => pm pc c && seg_eq pm p' m'
   | _, _ => false
   end.
 
-Definition no_nl (g : str) : Prop := forallb (fun c => negb (c =? 10)) g = true.
+Section Matcher.
+Variable pm : N -> N -> bool.
 
 Lemma seg_match_spec : forall p t r,
-  seg_match p t = Some r <-> exists m, t = m ++ r /\ seg_eq p m = true.
+  seg_match pm p t = Some r <-> exists m, t = m ++ r /\ seg_eq pm p m = true.
 Proof.
   induction p as [|pc p IH]; intros t r; split.
   - cbn [seg_match]. intros H; inversion H; subst. exists []. split; reflexivity.
   - intros [m [Ht Hm]]. destruct m; cbn [seg_eq] in Hm; [|discriminate].
     cbn [app] in Ht. subst. reflexivity.
   - cbn [seg_match]. destruct t as [|c t]; [discriminate|].
-    destruct (pchar_match pc c) eqn:E; [|discriminate].
+    destruct (pm pc c) eqn:E; [|discriminate].
     intros H. apply IH in H. destruct H as [m [Ht Hm]].
     exists (c :: m). split.
     + cbn [app]. rewrite Ht. reflexivity.
@@ -36,7 +40,7 @@ Qed.
 
 (** the inner [fix gap] of [match_segs], as a standalone function *)
 Definition here_of (s : str) (f : str -> option (list str)) (t acc : str) : option (list str) :=
-  match seg_match s t with
+  match seg_match pm s t with
   | Some t' =>
       match f t' with
       | Some caps => Some (rev acc :: caps)
@@ -48,7 +52,7 @@ Definition here_of (s : str) (f : str -> option (list str)) (t acc : str) : opti
 Definition gapf (s : str) (f : str -> option (list str)) : str -> str -> option (list str) :=
   fix gap (t : str) (acc : str) {struct t} : option (list str) :=
     let here :=
-      match seg_match s t with
+      match seg_match pm s t with
       | Some t' =>
           match f t' with
           | Some caps => Some (rev acc :: caps)
@@ -61,12 +65,12 @@ Definition gapf (s : str) (f : str -> option (list str)) : str -> str -> option 
     | None =>
         match t with
         | [] => None
-        | c :: t' => if (c =? 10)%N then None else gap t' (c :: acc)
+        | c :: t' => gap t' (c :: acc)
         end
     end.
 
 Lemma match_segs_cons : forall s rest anch t,
-  match_segs (s :: rest) anch t = gapf s (match_segs rest anch) t [].
+  match_segs pm (s :: rest) anch t = gapf s (match_segs pm rest anch) t [].
 Proof. reflexivity. Qed.
 
 Lemma gapf_eq : forall s f t acc,
@@ -76,17 +80,17 @@ Lemma gapf_eq : forall s f t acc,
   | None =>
       match t with
       | [] => None
-      | c :: t' => if (c =? 10)%N then None else gapf s f t' (c :: acc)
+      | c :: t' => gapf s f t' (c :: acc)
       end
   end.
 Proof. intros s f t acc. destruct t; reflexivity. Qed.
 
 Lemma here_of_some : forall s f t acc r,
   here_of s f t acc = Some r ->
-  exists m t' caps, t = m ++ t' /\ seg_eq s m = true /\ f t' = Some caps /\ r = rev acc :: caps.
+  exists m t' caps, t = m ++ t' /\ seg_eq pm s m = true /\ f t' = Some caps /\ r = rev acc :: caps.
 Proof.
   intros s f t acc r. unfold here_of.
-  destruct (seg_match s t) as [t'|] eqn:E1; [|discriminate].
+  destruct (seg_match pm s t) as [t'|] eqn:E1; [|discriminate].
   destruct (f t') as [caps|] eqn:E2; [|discriminate].
   intros H; inversion H; subst.
   apply seg_match_spec in E1. destruct E1 as [m [Ht Hm]].
@@ -95,28 +99,29 @@ Qed.
 
 Lemma here_of_none : forall s f t acc,
   here_of s f t acc = None ->
-  forall m2 t2, t = m2 ++ t2 -> seg_eq s m2 = true -> f t2 = None.
+  forall m2 t2, t = m2 ++ t2 -> seg_eq pm s m2 = true -> f t2 = None.
 Proof.
   unfold here_of; intros s f t acc H m2 t2 Ht Hm.
-  assert (E : seg_match s t = Some t2) by (apply seg_match_spec; exists m2; auto).
+  assert (E : seg_match pm s t = Some t2) by (apply seg_match_spec; exists m2; auto).
   rewrite E in H. destruct (f t2); [discriminate|reflexivity].
 Qed.
 
 Lemma here_of_complete : forall s f t acc m t' caps,
-  t = m ++ t' -> seg_eq s m = true -> f t' = Some caps ->
+  t = m ++ t' -> seg_eq pm s m = true -> f t' = Some caps ->
   here_of s f t acc = Some (rev acc :: caps).
 Proof.
   unfold here_of; intros s f t acc m t' caps Ht Hm Hf.
-  assert (E : seg_match s t = Some t') by (apply seg_match_spec; exists m; auto).
+  assert (E : seg_match pm s t = Some t') by (apply seg_match_spec; exists m; auto).
   rewrite E, Hf. reflexivity.
 Qed.
 
+(** the gap [g] is any text, line breaks included *)
 Lemma gap_sound : forall s f t acc r,
   gapf s f t acc = Some r ->
   exists g m t' caps,
-    t = g ++ m ++ t' /\ no_nl g /\ seg_eq s m = true /\ f t' = Some caps /\
+    t = g ++ m ++ t' /\ seg_eq pm s m = true /\ f t' = Some caps /\
     r = (rev acc ++ g) :: caps /\
-    forall g2 m2 t2, t = g2 ++ m2 ++ t2 -> seg_eq s m2 = true -> f t2 <> None ->
+    forall g2 m2 t2, t = g2 ++ m2 ++ t2 -> seg_eq pm s m2 = true -> f t2 <> None ->
       (length g <= length g2)%nat.
 Proof.
   intros s f. induction t as [|c t IH]; intros acc r H; rewrite gapf_eq in H.
@@ -130,12 +135,10 @@ Proof.
       destruct E as [m [t' [caps [Ht [Hm [Hf Hr]]]]]].
       exists [], m, t', caps. rewrite app_nil_r.
       repeat split; auto. intros; cbn [length]; lia.
-    + destruct (c =? 10)%N eqn:Ec; [discriminate|].
-      apply IH in H.
-      destruct H as [g [m [t' [caps [Ht [Hg [Hm [Hf [Hr Hmin]]]]]]]]].
-      exists (c :: g), m, t', caps. split; [|split; [|split; [|split; [|split]]]]; auto.
+    + apply IH in H.
+      destruct H as [g [m [t' [caps [Ht [Hm [Hf [Hr Hmin]]]]]]]].
+      exists (c :: g), m, t', caps. split; [|split; [|split; [|split]]]; auto.
       * cbn [app]. rewrite Ht. reflexivity.
-      * unfold no_nl in *. cbn [forallb]. rewrite Ec. cbn [negb andb]. exact Hg.
       * rewrite Hr. cbn [rev]. rewrite <- app_assoc. reflexivity.
       * intros g2 m2 t2 Ht2 Hm2 Hf2. destruct g2 as [|c2 g2].
         -- exfalso. apply Hf2. cbn [app] in Ht2.
@@ -145,43 +148,41 @@ Proof.
 Qed.
 
 Lemma gap_complete : forall s f g t acc m t' caps,
-  t = g ++ m ++ t' -> no_nl g -> seg_eq s m = true -> f t' = Some caps ->
+  t = g ++ m ++ t' -> seg_eq pm s m = true -> f t' = Some caps ->
   exists r, gapf s f t acc = Some r.
 Proof.
-  intros s f. induction g as [|c g IH]; intros t acc m t' caps Ht Hg Hm Hf; rewrite gapf_eq.
+  intros s f. induction g as [|c g IH]; intros t acc m t' caps Ht Hm Hf; rewrite gapf_eq.
   - cbn [app] in Ht. erewrite here_of_complete; eauto.
   - destruct (here_of s f t acc) as [r|] eqn:E; [eauto|].
     subst t. cbn [app].
-    unfold no_nl in Hg. cbn [forallb] in Hg. apply andb_true_iff in Hg.
-    destruct Hg as [Hc Hg]. apply negb_true_iff in Hc. rewrite Hc.
     eapply IH; eauto.
 Qed.
 
 (** a match of the segments [segs] (each preceded by a wildcard gap) against [t],
-    with the texts captured by the gaps *)
+    with the texts captured by the gaps; a gap is any text (it may contain line breaks) *)
 Inductive segs_match : list str -> bool -> str -> list str -> Prop :=
 | sm_nil_free : forall t, segs_match [] false t []
 | sm_nil_anch : segs_match [] true [] []
 | sm_cons : forall s rest anch g m t caps,
-    no_nl g -> seg_eq s m = true -> segs_match rest anch t caps ->
+    seg_eq pm s m = true -> segs_match rest anch t caps ->
     segs_match (s :: rest) anch (g ++ m ++ t) (g :: caps).
 
 Theorem match_segs_sound : forall segs anch t caps,
-  match_segs segs anch t = Some caps -> segs_match segs anch t caps.
+  match_segs pm segs anch t = Some caps -> segs_match segs anch t caps.
 Proof.
   induction segs as [|s rest IH]; intros anch t caps H.
   - cbn [match_segs] in H. destruct anch.
     + destruct t; inversion H; constructor.
     + inversion H; constructor.
   - rewrite match_segs_cons in H. apply gap_sound in H.
-    destruct H as [g [m [t' [caps0 [Ht [Hg [Hm [Hf [Hr _]]]]]]]]].
+    destruct H as [g [m [t' [caps0 [Ht [Hm [Hf [Hr _]]]]]]]].
     subst t caps. cbn [rev app]. apply sm_cons; auto.
 Qed.
 
 Theorem match_segs_complete : forall segs anch t caps,
-  segs_match segs anch t caps -> exists caps', match_segs segs anch t = Some caps'.
+  segs_match segs anch t caps -> exists caps', match_segs pm segs anch t = Some caps'.
 Proof.
-  intros segs anch t caps H. induction H as [t| |s rest anch g m t caps Hg Hm H IH].
+  intros segs anch t caps H. induction H as [t| |s rest anch g m t caps Hm H IH].
   - exists []. reflexivity.
   - exists []. reflexivity.
   - destruct IH as [caps' Hc]. rewrite match_segs_cons.
@@ -189,53 +190,53 @@ Proof.
 Qed.
 
 Definition fhere (s0 : str) (f : str -> option (list str)) (t : str) : option (list str) :=
-  match seg_match s0 t with
+  match seg_match pm s0 t with
   | Some t' => f t'
   | None => None
   end.
 
 Lemma find_match_eq : forall s0 rest anch t,
-  find_match s0 rest anch t =
-  match fhere s0 (match_segs rest anch) t with
+  find_match pm s0 rest anch t =
+  match fhere s0 (match_segs pm rest anch) t with
   | Some caps => Some caps
   | None =>
       match t with
       | [] => None
-      | _ :: t' => find_match s0 rest anch t'
+      | _ :: t' => find_match pm s0 rest anch t'
       end
   end.
 Proof. intros s0 rest anch t. destruct t; reflexivity. Qed.
 
 Lemma fhere_some : forall s0 f t caps,
   fhere s0 f t = Some caps ->
-  exists m t', t = m ++ t' /\ seg_eq s0 m = true /\ f t' = Some caps.
+  exists m t', t = m ++ t' /\ seg_eq pm s0 m = true /\ f t' = Some caps.
 Proof.
   intros s0 f t caps. unfold fhere.
-  destruct (seg_match s0 t) as [t'|] eqn:E1; [|discriminate].
+  destruct (seg_match pm s0 t) as [t'|] eqn:E1; [|discriminate].
   intros H. apply seg_match_spec in E1. destruct E1 as [m [Ht Hm]].
   exists m, t'. auto.
 Qed.
 
 Lemma fhere_complete : forall s0 f t m t',
-  t = m ++ t' -> seg_eq s0 m = true -> fhere s0 f t = f t'.
+  t = m ++ t' -> seg_eq pm s0 m = true -> fhere s0 f t = f t'.
 Proof.
   unfold fhere; intros s0 f t m t' Ht Hm.
-  assert (E : seg_match s0 t = Some t') by (apply seg_match_spec; exists m; auto).
+  assert (E : seg_match pm s0 t = Some t') by (apply seg_match_spec; exists m; auto).
   rewrite E. reflexivity.
 Qed.
 
 Lemma find_match_strong : forall s0 rest anch t caps,
-  find_match s0 rest anch t = Some caps ->
-  exists pre m t', t = pre ++ m ++ t' /\ seg_eq s0 m = true /\
-    match_segs rest anch t' = Some caps /\
-    forall pre2 m2 t2, t = pre2 ++ m2 ++ t2 -> seg_eq s0 m2 = true ->
-      match_segs rest anch t2 <> None -> (length pre <= length pre2)%nat.
+  find_match pm s0 rest anch t = Some caps ->
+  exists pre m t', t = pre ++ m ++ t' /\ seg_eq pm s0 m = true /\
+    match_segs pm rest anch t' = Some caps /\
+    forall pre2 m2 t2, t = pre2 ++ m2 ++ t2 -> seg_eq pm s0 m2 = true ->
+      match_segs pm rest anch t2 <> None -> (length pre <= length pre2)%nat.
 Proof.
   intros s0 rest anch. induction t as [|c t IH]; intros caps H; rewrite find_match_eq in H.
-  - destruct (fhere s0 (match_segs rest anch) []) as [r|] eqn:E; [|discriminate].
+  - destruct (fhere s0 (match_segs pm rest anch) []) as [r|] eqn:E; [|discriminate].
     inversion H; subst r. apply fhere_some in E. destruct E as [m [t' [Ht [Hm Hf]]]].
     exists [], m, t'. repeat split; auto. intros; cbn [length]; lia.
-  - destruct (fhere s0 (match_segs rest anch) (c :: t)) as [r|] eqn:E.
+  - destruct (fhere s0 (match_segs pm rest anch) (c :: t)) as [r|] eqn:E.
     + inversion H; subst r. apply fhere_some in E. destruct E as [m [t' [Ht [Hm Hf]]]].
       exists [], m, t'. repeat split; auto. intros; cbn [length]; lia.
     + apply IH in H. destruct H as [pre [m [t' [Ht [Hm [Hf Hmin]]]]]].
@@ -249,20 +250,20 @@ Proof.
 Qed.
 
 Lemma find_match_complete_aux : forall s0 rest anch pre t m t' caps,
-  t = pre ++ m ++ t' -> seg_eq s0 m = true -> match_segs rest anch t' = Some caps ->
-  exists caps', find_match s0 rest anch t = Some caps'.
+  t = pre ++ m ++ t' -> seg_eq pm s0 m = true -> match_segs pm rest anch t' = Some caps ->
+  exists caps', find_match pm s0 rest anch t = Some caps'.
 Proof.
   intros s0 rest anch. induction pre as [|c pre IH]; intros t m t' caps Ht Hm Hf;
     rewrite find_match_eq.
   - cbn [app] in Ht. erewrite fhere_complete; eauto. rewrite Hf. eauto.
-  - destruct (fhere s0 (match_segs rest anch) t) as [r|] eqn:E; [eauto|].
+  - destruct (fhere s0 (match_segs pm rest anch) t) as [r|] eqn:E; [eauto|].
     subst t. cbn [app]. eapply IH; eauto.
 Qed.
 
 (** the whole pattern s0 * s1 * ... anywhere in the text *)
 Theorem find_match_sound : forall s0 rest anch t caps,
-  find_match s0 rest anch t = Some caps ->
-  exists pre m t', t = pre ++ m ++ t' /\ seg_eq s0 m = true /\ segs_match rest anch t' caps.
+  find_match pm s0 rest anch t = Some caps ->
+  exists pre m t', t = pre ++ m ++ t' /\ seg_eq pm s0 m = true /\ segs_match rest anch t' caps.
 Proof.
   intros s0 rest anch t caps H. apply find_match_strong in H.
   destruct H as [pre [m [t' [Ht [Hm [Hf _]]]]]].
@@ -270,8 +271,8 @@ Proof.
 Qed.
 
 Theorem find_match_complete : forall s0 rest anch t pre m t' caps,
-  t = pre ++ m ++ t' -> seg_eq s0 m = true -> segs_match rest anch t' caps ->
-  exists caps', find_match s0 rest anch t = Some caps'.
+  t = pre ++ m ++ t' -> seg_eq pm s0 m = true -> segs_match rest anch t' caps ->
+  exists caps', find_match pm s0 rest anch t = Some caps'.
 Proof.
   intros s0 rest anch t pre m t' caps Ht Hm H.
   apply match_segs_complete in H. destruct H as [caps' Hc].
@@ -280,9 +281,9 @@ Qed.
 
 (** leftmost: no match starts earlier than the one found *)
 Theorem find_match_leftmost : forall s0 rest anch t caps,
-  find_match s0 rest anch t = Some caps ->
-  exists pre m t', t = pre ++ m ++ t' /\ seg_eq s0 m = true /\ segs_match rest anch t' caps /\
-    forall pre2 m2 t2 caps2, t = pre2 ++ m2 ++ t2 -> seg_eq s0 m2 = true -> segs_match rest anch t2 caps2 ->
+  find_match pm s0 rest anch t = Some caps ->
+  exists pre m t', t = pre ++ m ++ t' /\ seg_eq pm s0 m = true /\ segs_match rest anch t' caps /\
+    forall pre2 m2 t2 caps2, t = pre2 ++ m2 ++ t2 -> seg_eq pm s0 m2 = true -> segs_match rest anch t2 caps2 ->
       (length pre <= length pre2)%nat.
 Proof.
   intros s0 rest anch t caps H. apply find_match_strong in H.
@@ -294,15 +295,16 @@ Proof.
     apply (Hmin pre2 m2 t2); auto. rewrite Hc. discriminate.
 Qed.
 
-(** lazy: the first capture is the shortest that lets the rest match *)
+(** lazy: the first capture is the shortest that lets the rest match (among all gaps:
+    a gap may contain line breaks) *)
 Theorem match_segs_lazy : forall s rest anch t g caps,
-  match_segs (s :: rest) anch t = Some (g :: caps) ->
-  forall g2 m2 t2 caps2, t = g2 ++ m2 ++ t2 -> no_nl g2 -> seg_eq s m2 = true -> segs_match rest anch t2 caps2 ->
+  match_segs pm (s :: rest) anch t = Some (g :: caps) ->
+  forall g2 m2 t2 caps2, t = g2 ++ m2 ++ t2 -> seg_eq pm s m2 = true -> segs_match rest anch t2 caps2 ->
     (length g <= length g2)%nat.
 Proof.
-  intros s rest anch t g caps H g2 m2 t2 caps2 Ht2 Hg2 Hm2 H2.
+  intros s rest anch t g caps H g2 m2 t2 caps2 Ht2 Hm2 H2.
   rewrite match_segs_cons in H. apply gap_sound in H.
-  destruct H as [g0 [m [t' [caps0 [Ht [Hg [Hm [Hf [Hr Hmin]]]]]]]]].
+  destruct H as [g0 [m [t' [caps0 [Ht [Hm [Hf [Hr Hmin]]]]]]]].
   cbn [rev app] in Hr. injection Hr as Hg0 Hcaps. subst g0.
   apply match_segs_complete in H2. destruct H2 as [caps' Hc].
   apply (Hmin g2 m2 t2); auto. rewrite Hc. discriminate.
@@ -310,30 +312,80 @@ Qed.
 
 (** the number of captures is the number of wildcards *)
 Theorem match_segs_count : forall segs anch t caps,
-  match_segs segs anch t = Some caps -> length caps = length segs.
+  match_segs pm segs anch t = Some caps -> length caps = length segs.
 Proof.
   induction segs as [|s rest IH]; intros anch t caps H.
   - cbn [match_segs] in H. destruct anch.
     + destruct t; inversion H; reflexivity.
     + inversion H; reflexivity.
   - rewrite match_segs_cons in H. apply gap_sound in H.
-    destruct H as [g [m [t' [caps0 [Ht [Hg [Hm [Hf [Hr _]]]]]]]]].
+    destruct H as [g [m [t' [caps0 [Ht [Hm [Hf [Hr _]]]]]]]].
     subst caps. cbn [length]. f_equal. eapply IH; eauto.
 Qed.
 
-(** an exact (quoted) keyword: one segment, [*] is an ordinary character *)
+End Matcher.
+
+(** the wildcard gap is no longer confined to one line (fix 72583f8): a line break inside the
+    text between two segments is captured like any other character *)
+Example gap_spans_newline :
+  match_segs pchar_match [[98]] false [97; 10; 98] = Some [[97; 10]].
+Proof. reflexivity. Qed.
+
+(** an exact (quoted) keyword: one segment, [*] is an ordinary character; the text occurs
+    case-SENSITIVELY ([pchar_exact]), a blank of the keyword standing for any whitespace *)
 Theorem exact_keyword_spec : forall pat t,
   kw_is_match KExact pat t = true <->
-  exists pre m post, t = pre ++ m ++ post /\ seg_eq pat m = true.
+  exists pre m post, t = pre ++ m ++ post /\ seg_eq pchar_exact pat m = true.
 Proof.
   intros pat t. unfold kw_is_match, kw_captures. split.
-  - destruct (find_match pat [] false t) as [caps|] eqn:E; [|discriminate].
+  - destruct (find_match pchar_exact pat [] false t) as [caps|] eqn:E; [|discriminate].
     intros _. apply find_match_sound in E.
     destruct E as [pre [m [t' [Ht [Hm _]]]]]. exists pre, m, t'. auto.
   - intros [pre [m [post [Ht Hm]]]].
-    destruct (find_match_complete pat [] false t pre m post [] Ht Hm
-                (sm_nil_free post)) as [caps' Hc].
+    destruct (find_match_complete pchar_exact pat [] false t pre m post [] Ht Hm
+                (sm_nil_free pchar_exact post)) as [caps' Hc].
     rewrite Hc. reflexivity.
+Qed.
+
+(** a wildcard (bare) keyword / parse pattern: its segments, caseless ([pchar_match]) *)
+Theorem wild_keyword_spec : forall pat t caps,
+  kw_captures KWild pat t = Some caps ->
+  exists s0 rest pre m t', split_on_star pat [] = s0 :: rest /\
+    t = pre ++ m ++ t' /\ seg_eq pchar_match s0 m = true /\
+    segs_match pchar_match rest (ends_with_star pat) t' caps.
+Proof.
+  intros pat t caps. unfold kw_captures.
+  destruct (split_on_star pat []) as [|s0 rest]; [discriminate|].
+  intros H. apply find_match_sound in H. destruct H as [pre [m [t' H]]].
+  exists s0, rest, pre, m, t'. split; [reflexivity|exact H].
+Qed.
+
+(** quoted keywords are literal: a character of the keyword other than a space matches only itself *)
+Lemma pchar_exact_literal : forall p c, p <> 32 -> pchar_exact p c = true -> p = c.
+Proof.
+  intros p c Hp H. unfold pchar_exact in H.
+  destruct (p =? 32) eqn:E.
+  - apply N.eqb_eq in E. contradiction.
+  - apply N.eqb_eq in H. exact H.
+Qed.
+
+(** a keyword without blanks: the quoted form matches iff the text occurs verbatim *)
+Lemma seg_eq_exact_no_blank : forall p m,
+  forallb (fun c => negb (c =? 32)) p = true ->
+  (seg_eq pchar_exact p m = true <-> m = p).
+Proof.
+  induction p as [|pc p IH]; intros m Hp; split.
+  - destruct m; [reflexivity|discriminate].
+  - intros ->. reflexivity.
+  - cbn [forallb] in Hp. apply andb_true_iff in Hp. destruct Hp as [Hc Hp].
+    destruct m as [|c m]; cbn [seg_eq]; [discriminate|].
+    intros H. apply andb_true_iff in H. destruct H as [H1 H2].
+    apply negb_true_iff, N.eqb_neq in Hc.
+    apply pchar_exact_literal in H1; [|exact Hc]. apply IH in H2; [|exact Hp]. congruence.
+  - intros ->. cbn [forallb] in Hp. apply andb_true_iff in Hp. destruct Hp as [Hc Hp].
+    cbn [seg_eq]. apply andb_true_iff. split.
+    + unfold pchar_exact. apply negb_true_iff in Hc. rewrite Hc. apply N.eqb_refl.
+    + apply IH; auto.
 Qed.
 
 (** segments are literal: a character of the pattern other than a space matches only itself up to ASCII case *)
